@@ -103,17 +103,17 @@ class BaseData:
                 self.set_column_unique_param(key)
 
     def set_column_unique_param(self, key: str) -> None:
+        if key == "constraints":
+            # named constraints: CONSTRAINT name UNIQUE (column)
+            unique_lists = [
+                unique["columns"] for unique in getattr(self, key, {}).get("uniques", [])
+            ]
+        else:
+            unique_lists = [getattr(self, key, {}).get("columns", [])]
         for column in self.columns:
-            if key == "constraints":
-                unique = getattr(self, key, {}).get("unique", [])
-                if unique:
-                    check_in = unique["columns"]
-                else:
-                    check_in = []
-            else:
-                check_in = getattr(self, key, {})
-            if len(check_in) == 1 and column["name"] in check_in:
-                column["unique"] = True
+            for check_in in unique_lists:
+                if len(check_in) == 1 and column["name"] in check_in:
+                    column["unique"] = True
 
     def normalize_ref_columns_in_final_output(self):
         for col_ref in self.ref_columns:
